@@ -439,12 +439,11 @@ Definition lw_apply (w : lwriter) (e : revent) : lwriter :=
 
 (* ------------------------------------------------------------------ the assembled unary chain of a started server *)
 (* rpc/internal/server.go Start: Tracing, Crash, Stat, Prometheus, Breaker, then what setupInterceptors added
-   (Shedding, Timeout, Auth).  The breaker interceptor runs the rest of the chain inside googleBreaker.doReq, whose
-   deferred function STILL tests the recovered value (lib/breaker/googlebreaker.go:71-76
-   `if e := recover(); e != nil { b.markFailure(); panic(e) }`): a panic(nil) that reaches it is swallowed and
-   doReq returns nil, i.e. the interceptor returns (nil, nil).  With the timeout interceptor in between the
-   breaker only ever sees that interceptor's formatted string. *)
-Definition breaker_sees (v : pvalue) : bool := match v with PVNil => false | _ => true end.
+   (Shedding, Timeout, Auth).  The breaker interceptor runs the rest of the chain inside googleBreaker.doReq
+   (lib/breaker/googlebreaker.go:71-90, since 9a9266d): a `finished` flag, no recover at all -- an unfinished call is
+   marked as a failure and the panic keeps propagating with its own value, nil included, up to the crash
+   interceptor.  (Before 9a9266d doReq tested `recover() != nil` and swallowed panic(nil): D17.) *)
+Definition breaker_sees (v : pvalue) : bool := true.
 Definition rpc_server_direct (h : hres) : rres :=
   match h with
   | HPanics v => if breaker_sees v then rpc_direct true h else RResult None codeOK
